@@ -311,6 +311,9 @@ ProductKinds == {"Cartesian", "Tensor", "Lexicographical", "Strong", "CoNormal",
 
 (************************* deterministic generators *************************)
 \* ids: a sequence of distinct node ids; result: directed edge set (earlier -> later / centre -> leaf)
+\* Tree (n-ary tree built breadth-first over the listed nodes): the node at 0-based index j > 0 has its
+\* parent at index (j - 1) \div fan
+TreeParent(j, fan) == (j - 1) \div fan
 GenEdges(kind, ids, c, fan) ==
     LET n == Len(ids) IN
     CASE kind = "Complete" -> {<<ids[x[1]], ids[x[2]]>> : x \in {y \in (1 .. n) \X (1 .. n) : y[1] < y[2]}}
@@ -318,7 +321,49 @@ GenEdges(kind, ids, c, fan) ==
       [] kind = "Cycle" -> IF n < 2 THEN {} ELSE {<<ids[i], ids[(i % n) + 1]>> : i \in 1 .. n}
       [] kind = "Star"  -> {<<c, ids[i]>> : i \in 1 .. n}
       [] kind = "Wheel" -> {<<c, ids[i]>> : i \in 1 .. n} \cup (IF n < 2 THEN {} ELSE {<<ids[i], ids[(i % n) + 1]>> : i \in 1 .. n})
-      [] kind = "Tree"  -> \* node at 0-based index j > 0 hangs under index (j-1) \div fan
-                           {<<ids[((j - 1) \div fan) + 1], ids[j + 1]>> : j \in 1 .. n - 1}
+      [] kind = "Tree"  -> {<<ids[TreeParent(j, fan) + 1], ids[j + 1]>> : j \in 1 .. n - 1}
 GenNodes(kind, ids, c) == Rng(ids) \cup (IF kind \in {"Star", "Wheel"} THEN {c} ELSE {})
+GenKinds == {"Complete", "Path", "Cycle", "Star", "Wheel", "Tree"}
+
+\* the documented panics: an id appearing twice among the listed ids (and the centre of Star / Wheel) - a
+\* single id cannot appear twice, and Star / Wheel check nothing when there is no leaf; Tree: when there is
+\* more than one node the fan-out must be non-zero and less than the number of nodes
+GenInjective(s) == \A i \in DOMAIN s : \A j \in DOMAIN s : i # j => s[i] # s[j]
+GenPanics(kind, ids, c, fan) ==
+    LET n == Len(ids)
+        hasC == kind \in {"Star", "Wheel"}
+        dup == ~GenInjective(ids) \/ (hasC /\ n > 0 /\ c \in Rng(ids))
+    IN IF kind = "Tree" THEN n > 1 /\ (fan = 0 \/ n <= fan \/ dup)
+       ELSE IF hasC THEN dup
+       ELSE n >= 2 /\ dup
+
+\* a second formulation of every generator (R1 cross-check of GenEdges on distinct ids; positions 1..n):
+\* Tree by children - the children of 0-based index i are the indices fan*i+1 .. fan*i+fan that exist
+TreeByChildren(n, fan) == {p \in (1 .. n) \X (1 .. n) : fan * (p[1] - 1) + 1 <= p[2] - 1 /\ p[2] - 1 <= fan * (p[1] - 1) + fan}
+OutDeg(Es, v) == Cardinality({e \in Es : e[1] = v})
+InDeg(Es, v) == Cardinality({e \in Es : e[2] = v})
+CeilDiv(a, b) == (a + b - 1) \div b
+\* positions as ids (ids = <<1, .., n>>), centre n + 1
+GenShapeOK(kind, n, fan) ==
+    LET ids == [i \in 1 .. n |-> i]
+        Es == GenEdges(kind, ids, n + 1, fan)
+        U == Sym(Es)
+    IN CASE kind = "Complete" -> Cardinality(Es) = (n * (n - 1)) \div 2 /\ \A u \in 1 .. n : \A v \in 1 .. n : u # v => <<u, v>> \in U
+         [] kind = "Path" -> /\ Cardinality(Es) = (IF n = 0 THEN 0 ELSE n - 1)
+                             /\ \A v \in 1 .. n : OutDeg(Es, v) = (IF v = n THEN 0 ELSE 1) /\ InDeg(Es, v) = (IF v = 1 THEN 0 ELSE 1)
+                             /\ (n > 0 => Reach(Es, 1) = 1 .. n)
+         [] kind = "Cycle" -> /\ Cardinality(Es) = (IF n < 2 THEN 0 ELSE n)
+                              /\ (n >= 2 => \A v \in 1 .. n : OutDeg(Es, v) = 1 /\ InDeg(Es, v) = 1 /\ Reach(Es, v) = 1 .. n)
+         [] kind = "Star" -> Es = {n + 1} \X (1 .. n)
+         [] kind = "Wheel" -> Es = GenEdges("Star", ids, n + 1, fan) \cup GenEdges("Cycle", ids, n + 1, fan)
+         [] kind = "Tree" -> (fan >= 1 /\ (n <= 1 \/ fan < n)) =>
+                             /\ Es = TreeByChildren(n, fan)
+                             /\ Cardinality(Es) = (IF n = 0 THEN 0 ELSE n - 1)
+                             /\ \A v \in 2 .. n : InDeg(Es, v) = 1
+                             /\ \A v \in 1 .. n : OutDeg(Es, v) <= fan
+                             /\ (n > 0 => Reach(Es, 1) = 1 .. n /\ InDeg(Es, 1) = 0)
+                             \* breadth-first: internal nodes are exactly the first ceil((n-1)/fan) positions, all of
+                             \* them full except possibly the last
+                             /\ {v \in 1 .. n : OutDeg(Es, v) > 0} = 1 .. CeilDiv(n - 1, fan)
+                             /\ \A v \in 1 .. (CeilDiv(n - 1, fan) - 1) : OutDeg(Es, v) = fan
 =============================================================================
